@@ -186,7 +186,115 @@ func runCase(t *rapid.T, replay []step) {
 		db := rapid.SampledFrom([]int{0, 0, 0, 1}).Draw(t, "db")
 		_ = s.Select(db)
 		m := modelOf(s, db)
-		switch rapid.IntRange(0, 9).Draw(t, "probe") {
+		switch rapid.IntRange(0, 12).Draw(t, "probe") {
+		case 10, 11:
+			// a ...STORE command whose result may share structure with an operand (one operand, or further
+			// operands that are missing / disjoint), followed at once by in-place writes to the destination and
+			// to the operand: each write may change only the key it addresses
+			kind := rapid.SampledFrom([]string{"set", "zset"}).Draw(t, "akind")
+			var src []string
+			for _, k := range keys {
+				if e := m.Peek(m.Cur, k); e != nil && e.Type == kind {
+					src = append(src, k)
+				}
+			}
+			if len(src) == 0 {
+				continue
+			}
+			s1 := rapid.SampledFrom(src).Draw(t, "asrc")
+			var others []string
+			for _, k := range keys {
+				if k != s1 {
+					others = append(others, k)
+				}
+			}
+			dst := rapid.SampledFrom(others).Draw(t, "adst")
+			var name string
+			if kind == "set" {
+				name = rapid.SampledFrom([]string{"SUNIONSTORE", "SINTERSTORE", "SDIFFSTORE"}).Draw(t, "astore")
+			} else {
+				name = rapid.SampledFrom([]string{"ZUNIONSTORE", "ZINTERSTORE", "ZDIFFSTORE", "ZRANGESTORE"}).Draw(t, "astore")
+			}
+			cmd := []string{name, dst, s1}
+			switch {
+			case name == "ZRANGESTORE":
+				cmd = append(cmd, "0", "-1")
+			case rapid.IntRange(0, 2).Draw(t, "aextra") > 0:
+				cmd = append(cmd, rapid.SampledFrom([]string{"nokey", "nokey2", s1}).Draw(t, "aop2"))
+			}
+			rec.Class("store-then-write")
+			exec(step{Kind: "any", DB: db, Cmd: cmd})
+			for _, target := range []string{dst, s1, dst} {
+				var w []string
+				if kind == "set" {
+					w = rapid.SampledFrom([][]string{{"SADD", target, "fresh-member"}, {"SREM", target, "m1"}, {"SREM", target, "m2"}, {"SMOVE", target, "nokey3", "m3"}, {"SADD", target, "m1", "zz"}}).Draw(t, "aw")
+				} else {
+					w = rapid.SampledFrom([][]string{{"ZADD", target, "42", "fresh-member"}, {"ZINCRBY", target, "5", "m1"}, {"ZREM", target, "m2"}, {"ZPOPMIN", target}, {"ZREMRANGEBYRANK", target, "0", "0"}}).Draw(t, "aw")
+				}
+				exec(step{Kind: "single", DB: db, Cmd: w})
+				exec(step{Kind: "any", DB: db, Cmd: []string{"DEL", "nokey3"}})
+			}
+		case 12:
+			// a multi-key command that must fail because one operand has the wrong type while the other operands
+			// are such that the command would have had an effect: nothing may change
+			var byType = map[string][]string{}
+			for _, k := range keys {
+				if e := m.Peek(m.Cur, k); e != nil {
+					byType[e.Type] = append(byType[e.Type], k)
+				}
+			}
+			pick := func(typ, label string) string {
+				if len(byType[typ]) == 0 {
+					return ""
+				}
+				return rapid.SampledFrom(byType[typ]).Draw(t, label)
+			}
+			wrong := func(not, label string) string {
+				var c []string
+				for typ, ks := range byType {
+					if typ != not {
+						c = append(c, ks...)
+					}
+				}
+				sort.Strings(c)
+				if len(c) == 0 {
+					return ""
+				}
+				return rapid.SampledFrom(c).Draw(t, label)
+			}
+			var cands [][]string
+			if a, b := pick("set", "fs"), wrong("set", "fw"); a != "" && b != "" {
+				mem := "m1"
+				if e := m.Peek(m.Cur, a); e != nil {
+					for x := range e.Set {
+						mem = x
+						break
+					}
+					var ms []string
+					for x := range e.Set {
+						ms = append(ms, x)
+					}
+					sort.Strings(ms)
+					if len(ms) > 0 {
+						mem = rapid.SampledFrom(ms).Draw(t, "fmem")
+					}
+				}
+				cands = append(cands, []string{"SMOVE", a, b, mem}, []string{"SUNIONSTORE", a, a, b}, []string{"SINTERSTORE", "fresh", a, b}, []string{"SDIFFSTORE", a, a, b}, []string{"SUNIONSTORE", b, a, b})
+			}
+			if a, b := pick("list", "fl"), wrong("list", "flw"); a != "" && b != "" {
+				cands = append(cands, []string{"LMOVE", a, b, "LEFT", "RIGHT"}, []string{"LMOVE", a, b, "RIGHT", "LEFT"})
+			}
+			if a, b := pick("zset", "fz"), wrong("zset", "fzw"); a != "" && b != "" {
+				cands = append(cands, []string{"ZUNIONSTORE", a, a, b}, []string{"ZINTERSTORE", "fresh", a, b}, []string{"ZDIFFSTORE", a, a, b}, []string{"ZRANGESTORE", a, b, "0", "-1"})
+			}
+			if a, b := pick("string", "fstr"), wrong("string", "fstrw"); a != "" && b != "" {
+				cands = append(cands, []string{"MGET", a, b}, []string{"APPEND", b, "x"}, []string{"INCR", b}, []string{"SETRANGE", b, "0", "x"}, []string{"GETDEL", b}, []string{"GETEX", b, "EX", "100"})
+			}
+			if len(cands) == 0 {
+				continue
+			}
+			rec.Class("multi-key command with a wrong-type operand")
+			exec(step{Kind: "any", DB: db, Cmd: rapid.SampledFrom(cands).Draw(t, "fcmd")})
 		case 0, 1, 2, 3, 4:
 			// a read-classified command
 			var cmd []string
